@@ -18,7 +18,7 @@ pub fn exec3(prop: &str, op: &str, line: &str, args: &[SExp]) -> Option<CaseResu
         "transport" => op_transport(line, args),
         "build" => op_build(prop, line, args),
         "order" => op_order(line, args),
-        _ => return None,
+        _ => return crate::exec4::exec4(prop, op, line, args),
     })
 }
 
